@@ -188,6 +188,7 @@ func (r *Region) WriteSector(x, z int, data []byte) error {
 		// we need to allocate new sectors
 
 		// mark the sectors previously used for this chunk as free
+		oldN, oldNow := n, now
 		for i := int32(0); i < now; i++ {
 			r.sectors[n+i] = false
 		}
@@ -207,6 +208,10 @@ func (r *Region) WriteSector(x, z int, data []byte) error {
 		timestamp := time.Now().Unix()
 		err := r.setHead(x, z, uint32(r.offsets[z][x]), uint32(timestamp))
 		if err != nil {
+			// the header in the file may still name the old sectors: keep them reserved
+			for i := int32(0); i < oldNow; i++ {
+				r.sectors[oldN+i] = true
+			}
 			return err
 		}
 		r.Timestamps[z][x] = int32(timestamp)
